@@ -685,7 +685,7 @@ def targets(ctx, S, t, tag="t", ext=True):
 # ---------------------------------------------------------------------------------------
 # Lean lemma library (thorough tier): size-generic versions of the linear-algebra lemmas
 # ---------------------------------------------------------------------------------------
-LEAN_FILE = "lean/GsLemmas.lean"
+LEAN_FILE = "lean/GsKrige.lean"
 LEAN_LEMMAS = {
     "C05": ["krige_direct_solution", "krige_solution_unique", "krige_estimate_linear", "krige_row",
             "krige_reproduces_rows", "krige_perm_invariant"],
@@ -694,7 +694,7 @@ LEAN_LEMMAS = {
 
 
 def lean_obligations(rep, prop):
-    """re-check lean/GsLemmas.lean with `lean` and report one obligation per theorem (backend
+    """re-check lean/GsKrige.lean with `lean` and report one obligation per theorem (backend
     'lean').  A theorem counts as discharged only if lean exits 0, reports no error and no
     'sorry' anywhere in the file."""
     import os
@@ -708,7 +708,7 @@ def lean_obligations(rep, prop):
     fns = (LEAN_FILE,)
     if not os.path.exists(path):
         for nm in names:
-            rep.add(Obligation("%s/lean/GsLemmas.%s" % (prop, nm), ERROR, "lean", 0.0, "lean file missing", functions=fns))
+            rep.add(Obligation("%s/lean/GsKrige.%s" % (prop, nm), ERROR, "lean", 0.0, "lean file missing", functions=fns))
         return
     src = open(path).read()
     t0 = time.time()
@@ -721,8 +721,8 @@ def lean_obligations(rep, prop):
     dt = time.time() - t0
     rep.trust("T7 Lean 4 / Mathlib kernel (`lean %s`, %.0f s)" % (LEAN_FILE, dt))
     for nm in names:
-        declared = re.search(r"theorem\s+(GsLemmas\.)?%s\b" % re.escape(nm), src) is not None
+        declared = re.search(r"theorem\s+(GsKrige\.)?%s\b" % re.escape(nm), src) is not None
         st = DISCHARGED if (ok and declared) else ERROR
-        rep.add(Obligation("%s/lean/GsLemmas.%s" % (prop, nm), st, "lean", dt / max(1, len(names)),
+        rep.add(Obligation("%s/lean/GsKrige.%s" % (prop, nm), st, "lean", dt / max(1, len(names)),
                            "" if st == DISCHARGED else ("lean output: " + out[-600:] if declared else "theorem not found"),
                            functions=fns))
